@@ -1,6 +1,7 @@
 import NdnProofs.Lemmas.PacketParse
 import NdnProofs.Lemmas.PacketParseInterest
 import NdnProofs.Props.C01
+import NdnProofs.Lemmas.Signers
 /-!
 # C02 — Signatures and parameter digests cover the specified bytes; tampering is detected
 
@@ -388,6 +389,144 @@ theorem parsed_digest_cover_params_interest (H : Bytes → Bytes) (name : List B
   refine ⟨_, rfl, ?_, by simp, by simp [concatB]⟩
   intro e; rw [e] at hH; simp at hH
 
+/-! ### the same for an Interest whose name already carries a caller-supplied digest placeholder
+
+`make_interest` accepts a name `pre ++ [02 20 x] ++ post` that already holds ONE ParametersSha256Digest component
+(34 bytes, `x` arbitrary) at any position and fills it in (`C01.make_interest_is_core_at`: `makeInterest` on such a
+name is `interestCore … true (some pre.length)`).  The ranges are the same as with an appended component. -/
+
+/-- **parsed_cover_is_signed_portion_interest_placeholder.** For a made signed Interest whose name carries a
+    caller-supplied digest placeholder at ANY position: the final name is the given one with the placeholder's 32
+    value bytes replaced by `H` of ApplicationParameters … end; `parse_interest` reports as signature-covered parts
+    all name components except the digest component (`pre ++ post`) followed by ApplicationParameters and
+    SignatureInfo — byte for byte what the signer was handed —, as signature value what the signer wrote, as
+    digest-covered range ApplicationParameters … end of the (shrunk) Interest, and as digest value `H` of exactly
+    that range. -/
+theorem parsed_cover_is_signed_portion_interest_placeholder (H : Bytes → Bytes) (pre post : List Bytes) (x : Bytes)
+    (mid : List Value) (app sigInfo : Value) (s : SignerOut) (midB appB siB : Bytes)
+    (hmid : encFields [.bool 33, .bool 18, linksS, .uint 10 (some 4), .uint 12 none, .uint 34 (some 1)] mid = .ok midB)
+    (happ : enc (.bytes 36 false) app = .ok appB) (hsi : enc intSigInfoS sigInfo = .ok siB)
+    (hle : s.sig.length ≤ s.reserved) (hflex : s.sig.length = s.reserved ∨ s.reserved < 253)
+    (hr : s.reserved < 2 ^ 64) (hx : x.length = 32)
+    (hpre : pre.all compOk = true) (hpost : post.all compOk = true)
+    (hndpre : ∀ c ∈ pre, isDigestComp c = false) (hndpost : ∀ c ∈ post, isDigestComp c = false)
+    (hfitmid : fitsFs [.bool 33, .bool 18, linksS, .uint 10 (some 4), .uint 12 none, .uint 34 (some 1)] mid = true)
+    (hfittail : fitsFs [.bytes 36 false, intSigInfoS] [app, sigInfo] = true)
+    (hH : (H (appB ++ siB ++ tlv 46 s.sig)).length = 32)
+    (hsize : (concatB (pre ++ (2 :: 32 :: H (appB ++ siB ++ tlv 46 s.sig)) :: post)).length + midB.length +
+        (appB ++ siB).length + s.reserved + 64 < 2 ^ 64) :
+    ∃ m vals ptrs,
+      interestCore H (pre ++ (2 :: 32 :: x) :: post) mid app sigInfo (some s) true (some pre.length) = .ok m ∧
+      parseInterest m.wire = .ok (vals, ptrs) ∧
+      m.finalName = pre ++ (2 :: 32 :: H (appB ++ siB ++ tlv 46 s.sig)) :: post ∧
+      concatB ptrs.sigCovered = concatB pre ++ concatB post ++ appB ++ siB ∧
+      concatB ptrs.sigCovered = concatB m.covered ∧
+      ptrs.sigValue = some s.sig ∧
+      ptrs.digestCovered = [appB ++ siB ++ tlv 46 s.sig] ∧
+      ptrs.digestCovered = [m.digestCovered] ∧
+      ptrs.digestValue = some (H (appB ++ siB ++ tlv 46 s.sig)) := by
+  have htail : encFields [.bytes 36 false, intSigInfoS] [app, sigInfo] = .ok (appB ++ siB) := by
+    simp [encFields, happ, hsi, bind, Except.bind, pure, Except.pure]
+  obtain ⟨m, hm, _, hparse⟩ := C01.parse_make_interest_placeholder H pre post x mid app sigInfo s midB (appB ++ siB)
+    hmid htail hle hflex hr hx hpre hpost hndpre hndpost hfitmid hfittail _ _ rfl hH rfl hsize
+  have hc' : pre ++ (2 :: 32 :: H (appB ++ siB ++ tlv 46 s.sig)) :: post =
+      placeDigest (pre ++ (2 :: 32 :: x) :: post) pre.length (H (appB ++ siB ++ tlv 46 s.sig)) := by
+    rw [placeDigest_placeholder pre post x _ hx]
+  have hw := C01.make_interest_wire_at H _ pre.length mid app sigInfo s midB (appB ++ siB) hmid htail hle hflex hr
+    _ _ rfl hc' hsize
+  rw [hw] at hm
+  cases hm
+  have hcov : concatB (pre ++ post ++ [appB ++ siB]) = concatB pre ++ concatB post ++ appB ++ siB := by
+    simp [concatB_app, concatB, List.append_assoc]
+  refine ⟨_, _, _, hw, hparse, rfl, hcov, ?_, rfl, rfl, rfl, rfl⟩
+  rw [hcov, concatB_app, concatB_nameChunks_at]
+  simp [concatB, List.append_assoc]
+
+/-- **own_interest_placeholder_passes_digest_check.** `params_sha256_checker` accepts the SignaturePtrs that
+    `parse_interest` reports for a made signed Interest with a caller-supplied digest placeholder. -/
+theorem own_interest_placeholder_passes_digest_check (H : Bytes → Bytes) (pre post : List Bytes) (x : Bytes)
+    (mid : List Value) (app sigInfo : Value) (s : SignerOut) (midB appB siB : Bytes)
+    (hmid : encFields [.bool 33, .bool 18, linksS, .uint 10 (some 4), .uint 12 none, .uint 34 (some 1)] mid = .ok midB)
+    (happ : enc (.bytes 36 false) app = .ok appB) (hsi : enc intSigInfoS sigInfo = .ok siB)
+    (hle : s.sig.length ≤ s.reserved) (hflex : s.sig.length = s.reserved ∨ s.reserved < 253)
+    (hr : s.reserved < 2 ^ 64) (hx : x.length = 32)
+    (hpre : pre.all compOk = true) (hpost : post.all compOk = true)
+    (hndpre : ∀ c ∈ pre, isDigestComp c = false) (hndpost : ∀ c ∈ post, isDigestComp c = false)
+    (hfitmid : fitsFs [.bool 33, .bool 18, linksS, .uint 10 (some 4), .uint 12 none, .uint 34 (some 1)] mid = true)
+    (hfittail : fitsFs [.bytes 36 false, intSigInfoS] [app, sigInfo] = true)
+    (hH : (H (appB ++ siB ++ tlv 46 s.sig)).length = 32)
+    (hsize : (concatB (pre ++ (2 :: 32 :: H (appB ++ siB ++ tlv 46 s.sig)) :: post)).length + midB.length +
+        (appB ++ siB).length + s.reserved + 64 < 2 ^ 64) :
+    ∃ m vals ptrs,
+      interestCore H (pre ++ (2 :: 32 :: x) :: post) mid app sigInfo (some s) true (some pre.length) = .ok m ∧
+      parseInterest m.wire = .ok (vals, ptrs) ∧ paramsCheck H ptrs = true := by
+  obtain ⟨m, vals, ptrs, h1, h2, _, _, _, _, h6, _, h8⟩ :=
+    parsed_cover_is_signed_portion_interest_placeholder H pre post x mid app sigInfo s midB appB siB hmid happ hsi
+      hle hflex hr hx hpre hpost hndpre hndpost hfitmid hfittail hH hsize
+  refine ⟨m, vals, ptrs, h1, h2, ?_⟩
+  rw [params_digest_iff]
+  refine ⟨_, h8, ?_, by rw [h6]; simp, by rw [h6]; simp [concatB]⟩
+  intro e; rw [e] at hH; simp at hH
+
+/-- **own_interest_placeholder_verifies.** Under `Correct`, when the signer wrote `S.sign` of what it was handed
+    (the name without the digest component, then ApplicationParameters and SignatureInfo), the matching verifier
+    accepts the SignaturePtrs `parse_interest` reports for the made Interest with a caller-supplied placeholder. -/
+theorem own_interest_placeholder_verifies (S : Scheme) (hc : Correct S) (H : Bytes → Bytes) (pre post : List Bytes)
+    (x : Bytes) (mid : List Value) (app sigInfo : Value) (s : SignerOut) (midB appB siB : Bytes)
+    (hmid : encFields [.bool 33, .bool 18, linksS, .uint 10 (some 4), .uint 12 none, .uint 34 (some 1)] mid = .ok midB)
+    (happ : enc (.bytes 36 false) app = .ok appB) (hsi : enc intSigInfoS sigInfo = .ok siB)
+    (hle : s.sig.length ≤ s.reserved) (hflex : s.sig.length = s.reserved ∨ s.reserved < 253)
+    (hr : s.reserved < 2 ^ 64) (hx : x.length = 32)
+    (hpre : pre.all compOk = true) (hpost : post.all compOk = true)
+    (hndpre : ∀ c ∈ pre, isDigestComp c = false) (hndpost : ∀ c ∈ post, isDigestComp c = false)
+    (hfitmid : fitsFs [.bool 33, .bool 18, linksS, .uint 10 (some 4), .uint 12 none, .uint 34 (some 1)] mid = true)
+    (hfittail : fitsFs [.bytes 36 false, intSigInfoS] [app, sigInfo] = true)
+    (hH : (H (appB ++ siB ++ tlv 46 s.sig)).length = 32)
+    (hsize : (concatB (pre ++ (2 :: 32 :: H (appB ++ siB ++ tlv 46 s.sig)) :: post)).length + midB.length +
+        (appB ++ siB).length + s.reserved + 64 < 2 ^ 64)
+    (hsigned : s.sig = S.sign (concatB pre ++ concatB post ++ appB ++ siB)) :
+    ∃ m vals ptrs,
+      interestCore H (pre ++ (2 :: 32 :: x) :: post) mid app sigInfo (some s) true (some pre.length) = .ok m ∧
+      parseInterest m.wire = .ok (vals, ptrs) ∧ verifyPtrs S ptrs = true := by
+  obtain ⟨m, vals, ptrs, h1, h2, _, h3, _, h5, _⟩ :=
+    parsed_cover_is_signed_portion_interest_placeholder H pre post x mid app sigInfo s midB appB siB hmid happ hsi
+      hle hflex hr hx hpre hpost hndpre hndpost hfitmid hfittail hH hsize
+  exact ⟨m, vals, ptrs, h1, h2, verify_own S hc ptrs _ h3 (by rw [h5, hsigned])⟩
+
+/-- **parsed_digest_cover_params_interest_placeholder.** For an unsigned Interest with ApplicationParameters whose
+    name carries a caller-supplied digest placeholder at any position: no signature value, the name components
+    except the digest component as the only covered parts, ApplicationParameters … end as the digest-covered range
+    and `H` of it as digest value (also written into the final name); `params_sha256_checker` accepts. -/
+theorem parsed_digest_cover_params_interest_placeholder (H : Bytes → Bytes) (pre post : List Bytes) (x : Bytes)
+    (mid : List Value) (app sigInfo : Value) (midB tailA : Bytes)
+    (hmid : encFields [.bool 33, .bool 18, linksS, .uint 10 (some 4), .uint 12 none, .uint 34 (some 1)] mid = .ok midB)
+    (htail : encFields [.bytes 36 false, intSigInfoS] [app, sigInfo] = .ok tailA) (hx : x.length = 32)
+    (hpre : pre.all compOk = true) (hpost : post.all compOk = true)
+    (hndpre : ∀ c ∈ pre, isDigestComp c = false) (hndpost : ∀ c ∈ post, isDigestComp c = false)
+    (hfitmid : fitsFs [.bool 33, .bool 18, linksS, .uint 10 (some 4), .uint 12 none, .uint 34 (some 1)] mid = true)
+    (hfittail : fitsFs [.bytes 36 false, intSigInfoS] [app, sigInfo] = true)
+    (hne : tailA ≠ []) (hH : (H tailA).length = 32)
+    (hsize : (concatB (pre ++ (2 :: 32 :: H tailA) :: post)).length + midB.length + tailA.length + 64 < 2 ^ 64) :
+    ∃ m vals ptrs,
+      interestCore H (pre ++ (2 :: 32 :: x) :: post) mid app sigInfo none true (some pre.length) = .ok m ∧
+      parseInterest m.wire = .ok (vals, ptrs) ∧
+      m.finalName = pre ++ (2 :: 32 :: H tailA) :: post ∧
+      ptrs.sigValue = none ∧ ptrs.sigCovered = pre ++ post ∧
+      ptrs.digestCovered = [tailA] ∧ ptrs.digestCovered = [m.digestCovered] ∧
+      ptrs.digestValue = some (H tailA) ∧ paramsCheck H ptrs = true := by
+  obtain ⟨m, hm, hfn, hparse⟩ := C01.parse_make_interest_params_placeholder H pre post x mid app sigInfo midB tailA
+    hmid htail hx hpre hpost hndpre hndpost hfitmid hfittail hne hH _ rfl hsize
+  have hc' : pre ++ (2 :: 32 :: H tailA) :: post =
+      placeDigest (pre ++ (2 :: 32 :: x) :: post) pre.length (H tailA) := by
+    rw [placeDigest_placeholder pre post x _ hx]
+  have hw := C01.make_interest_params_wire_at H _ pre.length mid app sigInfo midB tailA hmid htail _ hc' hsize
+  rw [hw] at hm
+  cases hm
+  refine ⟨_, _, _, hw, hparse, rfl, rfl, rfl, rfl, rfl, rfl, ?_⟩
+  rw [params_digest_iff]
+  refine ⟨_, rfl, ?_, by simp, by simp [concatB]⟩
+  intro e; rw [e] at hH; simp at hH
+
 /-! ### non-vacuity: a concrete signed Interest (shrinking signer: reserved 8, real 5; `H` constant) is made,
     parsed, and its reported ranges are the signer's input / the digest input -/
 example :
@@ -402,6 +541,21 @@ example :
            [.uint 51, .uint 51, .bytes [120, 121], .model [.uint 3, .none, .none, .none, .none],
             .bytes [1, 2, 3, 4, 5], .none],
          { sigCovered := [[8, 1, 97], [36, 2, 120, 121, 44, 3, 27, 1, 3]], sigValue := some [1, 2, 3, 4, 5],
+           digestCovered := [[36, 2, 120, 121, 44, 3, 27, 1, 3, 46, 5, 1, 2, 3, 4, 5]],
+           digestValue := some (List.replicate 32 7) }, true) := by
+  rfl
+
+/-! ### non-vacuity: a signed Interest whose name carries a placeholder in the MIDDLE (shrinking signer) — the
+    signer is handed the two name chunks around it and the parameters; the parser reports the same bytes -/
+example :
+    (do let m ← makeInterest (fun _ => List.replicate 32 7) [[8, 1, 97], 2 :: 32 :: List.replicate 32 0, [8, 1, 98]]
+                  [.none, .bool, .none, .uint 5, .uint 4000, .none] (.bytes [120, 121])
+                  (.model [.uint 3, .none, .none, .none, .none]) (some { reserved := 8, sig := [1, 2, 3, 4, 5] })
+        let (_, p) ← parseInterest m.wire
+        pure (m.covered, m.finalName, p, paramsCheck (fun _ => List.replicate 32 7) p)) =
+    .ok ([[8, 1, 97], [8, 1, 98], [36, 2, 120, 121, 44, 3, 27, 1, 3]],
+         [[8, 1, 97], 2 :: 32 :: List.replicate 32 7, [8, 1, 98]],
+         { sigCovered := [[8, 1, 97], [8, 1, 98], [36, 2, 120, 121, 44, 3, 27, 1, 3]], sigValue := some [1, 2, 3, 4, 5],
            digestCovered := [[36, 2, 120, 121, 44, 3, 27, 1, 3, 46, 5, 1, 2, 3, 4, 5]],
            digestValue := some (List.replicate 32 7) }, true) := by
   rfl
